@@ -146,6 +146,17 @@ DIRECTED = [
 ]
 
 
+# slow element constructor (15 ms of virtual time between CAS EMPTY->BUSY and the tag store): every other inserter of a
+# colliding key must keep waiting on the BUSY byte, however long (small programs: also explored in the model)
+SLOW = [
+    {"mode": "S", "cap": "32", "hashes": {1: hval(5, 1)}, "prefill": [], "threads": [["L1"], ["L1", "F1"]], "nsched": 6},
+    {"mode": "X", "cap": "32", "hashes": {1: hval(5, 30)}, "prefill": [], "threads": [["L1"], ["L1"], ["C1"]], "nsched": 6},
+    {"mode": "S", "cap": "16", "hashes": {1: hval(9, 15)}, "prefill": [], "threads": [["L1"], ["L1"]], "nsched": 6},
+    {"mode": "M", "cap": "16", "hashes": {1: hval(7, 3), 2: hval(7, 3)}, "prefill": [], "threads": [["L1"], ["L2"], ["L1", "F2"]], "nsched": 6},
+    {"mode": "S", "cap": "D", "hashes": {1: 7, 2: 7}, "prefill": [], "threads": [["L1", "F2"], ["L2"], ["E1"]], "nsched": 6},
+]
+
+
 def fields(p):
     hs = ",".join("%d:%d" % (k, v) for k, v in sorted((int(k), v) for k, v in p["hashes"].items())) or "-"
     pre = ",".join(str(k) for k in p["prefill"]) or "-"
@@ -191,6 +202,8 @@ def main(argv):
     else:
         for i, p in enumerate(DIRECTED):
             progs.append(("d%d" % i, p, True))
+        for i, p in enumerate(SLOW):
+            progs.append(("w%d" % i, p, True))
         seen = set()
         n_small, n_big = (50, 60) if not thorough else (300, 400)
         for small, n in ((True, n_small), (False, n_big)):
@@ -212,11 +225,11 @@ def main(argv):
     meta = {}
     for pid, p, small in progs:
         f = fields(p)
-        for si, (seed, strat, choices) in enumerate(scheds):
+        for si, (seed, strat, choices) in enumerate(scheds[:p.get("nsched", len(scheds))]):
             cid = "%s.%d" % (pid, si)
             lines.append("%s %d %d %s %s %s %s %s %s" % ((cid, seed, strat) + f + (choices,)))
             meta[cid] = (pid, p, small, seed, strat, choices)
-    chk.log("%d programs x %d schedules" % (len(progs), len(scheds)))
+    chk.log("%d programs, %d cases" % (len(progs), len(lines)))
     # phase 1: three schedules of every program; the remaining schedules only run when phase 1 is clean (a broken
     # implementation that spins for ever would otherwise cost a livelock time-out per case)
     first = [l for l in lines if int(l.split()[0].rsplit(".", 1)[1]) < 3]
@@ -288,7 +301,8 @@ def main(argv):
                        "sequential prefill, client program, schedule seed, strategy); keys collide completely / share the "
                        "7-bit tag / share the base group / are random; base groups are aimed at the ends of the table "
                        "(wrap-around through the mirror bytes); prefill brings the table(s) to 0, full-2, full-1, full or "
-                       "two-tables-full so that the threads race for the last slots, fail on a full fixed table or race on "
+                       "two-tables-full so that the threads race for the last slots, plus slow-constructor programs (the winner blocks for "
+                       "15 ms of virtual time between its CAS and its tag store while others insert the same / colliding keys), fail on a full fixed table or race on "
                        "the next-pointer CAS (default-constructed head included); strategies: uniform random, round-robin "
                        "with random pre-emptions (no PCT: the BUSY spin-wait needs a fair scheduler); distinct non-trivial = distinct (program, observed outcome) "
                        "pairs; small programs are explored exhaustively in the extracted model and every implementation "
